@@ -311,6 +311,30 @@ impl Metrics {
 }
 
 /// Transport type for metrics tracking
+/// Verification hooks (compiled only with `--cfg throttlecrab_verif`)
+#[cfg(throttlecrab_verif)]
+impl Metrics {
+    /// Snapshot of the denied-key table: `None` when tracking is disabled
+    pub fn verif_denied_snapshot(&self) -> Option<Vec<(String, u64)>> {
+        self.top_denied_keys.as_ref().map(|m| {
+            let guard = m.lock().unwrap();
+            guard.counts.iter().map(|(k, v)| (k.clone(), *v)).collect()
+        })
+    }
+
+    /// The report `export_prometheus` would print (key, count), in its order
+    pub fn verif_denied_top(&self) -> Option<Vec<(String, u64)>> {
+        self.top_denied_keys
+            .as_ref()
+            .map(|m| m.lock().unwrap().get_top())
+    }
+
+    /// The label escaping used by the exporter
+    pub fn verif_escape_label(s: &str) -> String {
+        Self::escape_prometheus_label(s)
+    }
+}
+
 #[derive(Debug, Clone, Copy)]
 pub enum Transport {
     Http,
